@@ -60,6 +60,8 @@ struct RouterSession : Session {
     void onReshape(Sh &sh, const Poly &old, const Json &op);
     bool extraOp(const Json &op, const std::string &o, std::string &ex, bool &edited);
     void extraChecks(const char *when);
+    void checkPins(const char *when);
+    void checkNudging(const char *when);
     bool optNudgeAttached();
 };
 
